@@ -10,6 +10,7 @@ package prometheus
 import (
 	"regexp"
 	"runtime/metrics"
+	"sort"
 
 	dto "github.com/prometheus/client_model/go"
 
@@ -49,17 +50,26 @@ func VerifC18ToProm(d *metrics.Description) (fq string, valid bool) {
 }
 
 // VerifC18Layout returns, for a collector made by NewGoCollector, the names in the sample buffer and the
-// fully qualified names of the exposed runtime metrics (index i of the second belongs to index i of the first).
-func VerifC18Layout(c Collector) (sampleNames, exposedFq []string, ok bool) {
+// fully qualified names of the exposed runtime metrics (index i of the second belongs to index i of the first),
+// and the names whose sampleMap entry does not point at the sample of that name inside sampleBuf.
+func VerifC18Layout(c Collector) (sampleNames, exposedFq, stale []string, ok bool) {
 	g, ok := c.(*goCollector)
 	if !ok {
-		return nil, nil, false
+		return nil, nil, nil, false
 	}
+	at := map[string]*metrics.Sample{}
 	for i := range g.sampleBuf {
 		sampleNames = append(sampleNames, g.sampleBuf[i].Name)
+		at[g.sampleBuf[i].Name] = &g.sampleBuf[i]
 	}
 	for _, m := range g.rmExposedMetrics {
 		exposedFq = append(exposedFq, m.Desc().fqName)
 	}
-	return sampleNames, exposedFq, true
+	for name, p := range g.sampleMap {
+		if at[name] != p {
+			stale = append(stale, name)
+		}
+	}
+	sort.Strings(stale)
+	return sampleNames, exposedFq, stale, true
 }
